@@ -119,6 +119,8 @@ package server
 //@   modifies $writable, $appending, $opened, Enc.LE64, []uint8
 //@   at call Create#1 before
 //@     assert [cursor-path-written] name == cursorPath(backupManager.backupLocation)
+//@   at call Write#1 before
+//@     assert [cursor-written-as-8-byte-little-endian] len(b) == 8 && encLE64(b, 0) == backupManager.lastID
 
 //@ unit (*BackupManager).LoadLastID
 //@   prop C20
@@ -126,6 +128,8 @@ package server
 //@   ensures [no-cursor-means-zero] !readable(cursorPath(backupManager.backupLocation)) ==> ret0 == 0 && ret1 == nil
 //@   at call Open#1 before
 //@     assert [cursor-path-read] name == cursorPath(backupManager.backupLocation)
+//@   at call Uint64#1
+//@     assert [cursor-decoded-with-the-encoding-it-was-written-in] $result == encLE64(data, 0) && len(data) == 8
 
 //@ unit (*BackupManager).DoNativeBackup
 //@   prop C20
@@ -379,6 +383,7 @@ package server
 //@   ghost hasLocalG bool = false
 //@   ghost eqLocalG bool = false
 //@   ghost newitemsStartG int = 0
+//@   ghost localPrevG *Entity = nil
 //@   requires ds != nil && ds.store != nil && txn != nil && txnTime >= 0
 //@   requires forall i int :: 0 <= i && i < len(entities) ==> entities[i] != nil
 //@   requires ds.fullSyncStarted ==> ds.fullSyncSeen != nil
@@ -402,12 +407,15 @@ package server
 //@     ghost eqStoredG := $result
 //@   at call Unmarshal#1 before
 //@     ghost hasLocalG := true
+//@   at call Unmarshal#1
+//@     ghost localPrevG := prevLocalEntity
 //@   at call IsEntityEqual#1
 //@     ghost eqLocalG := $result
 //@   at call Set#1 before
 //@     assert [C01,C02:write-only-if-new-or-different] isnewG || (hasLocalG && !eqLocalG) || (!hasLocalG && !(hasStoredG && eqStoredG))
 //@     assert [C01,C04:json-key-layout] $arg0 == txn && len(key) == 24 && encBE16(key, 0) == 1 && encBE64(key, 2) == rid && encBE32(key, 10) == ds.InternalID && encBE64(key, 14) == txnTime && encBE16(key, 22) == batchSeqNum
 //@     assert [C01:json-value-is-this-version] val == jsonData
+//@     assert [C03:reference-diff-uses-the-in-batch-predecessor-when-there-is-one] hasLocalG ==> prevEntity == localPrevG
 //@     ghost wroteG := true
 //@   at call Set#2 before
 //@     assert [C02,C04:change-key-layout] $arg0 == txn && len(key) == 22 && encBE16(key, 0) == 4 && encBE32(key, 2) == ds.InternalID && encBE64(key, 6) == nextEntitySeq && encBE64(key, 14) == rid
